@@ -25,7 +25,7 @@ class MTime(Val):
 
 
 class StaticFile(Contract):
-    props = ('C16', 'C17')
+    props = ('C16', 'C17', 'C03')   # C03: the Content-Length static_file sets is the length of what its body delivers
     file = 'ombott/static_stream.py'
     qualname = 'static_file'
     max_paths = 6000
